@@ -102,11 +102,14 @@ func prefixPaths(svc map[string]any, dir string) map[string]any {
 	return out
 }
 
-var c05Files = []string{"", "bases.yaml", "sub/base.yaml", "sub/deeper/b.yaml"}
+// files of a chain, relative to the project directory `proj`; the last one lives in a sibling directory whose
+// name has the project directory's name as a prefix
+var c05Files = []string{"", "bases.yaml", "sub/base.yaml", "sub/deeper/b.yaml", "../proj-shared/base.yaml"}
 
 func relFile(fromFile, toFile string) string {
-	from := filepath.Dir(fromFile)
-	r, err := filepath.Rel(from, toFile)
+	// (names are relative to the project directory and may start with `..`: anchor them first)
+	from := filepath.Dir(filepath.Join("/r/proj", fromFile))
+	r, err := filepath.Rel(from, filepath.Join("/r/proj", toFile))
 	if err != nil {
 		return toFile
 	}
@@ -204,7 +207,7 @@ func genC05(t *rapid.T) c05Case {
 		cs.Distributed = append(cs.Distributed, memFile{Name: f, Content: emitYAML(d, nil)})
 	}
 	// env / label files next to every file that may reference them
-	for _, dir := range []string{"", "sub", "sub/deeper"} {
+	for _, dir := range []string{"", "sub", "sub/deeper", "../proj-shared"} {
 		for fn, content := range modelFiles() {
 			cs.Distributed = append(cs.Distributed, memFile{Name: filepath.Join(dir, fn), Content: content})
 		}
@@ -271,7 +274,12 @@ func genC05(t *rapid.T) c05Case {
 }
 
 func c05Load(files []memFile, main string) loadResult {
-	lc := loadCase{Files: files, Main: []string{main}, Opts: loadOpts{SkipConsistencyCheck: true}, Env: map[string]string{"SECRET_token": "t"}}
+	// everything lives in `proj/` (the working directory) or next to it
+	placed := make([]memFile, len(files))
+	for i, f := range files {
+		placed[i] = memFile{Name: filepath.Join("proj", f.Name), Content: f.Content, Dir: f.Dir}
+	}
+	lc := loadCase{Files: placed, Main: []string{filepath.Join("proj", main)}, WorkDir: "proj", Opts: loadOpts{SkipConsistencyCheck: true}, Env: map[string]string{"SECRET_token": "t"}}
 	root, cleanup, err := lc.materialise()
 	if err != nil {
 		return loadResult{Err: err}
